@@ -63,6 +63,12 @@ def configs(tier):
         out.append((cfg_of("I4", 1, False, 100, "E0", "tiny"), 0))
         out.append((cfg_of(2, 2, False, 100, "Arel", "resize"), 0))       # terminal resizes x relative paddings
         out.append((cfg_of(2, -1, True, "DYN", "Arel2", "resize"), 0))
+        # rarely used entry points: the extension constructor on a pre-seeked renderable; postponed frame counts
+        out.append((dict(cfg_of(3, 2, False, 100, "E0", "one"), ctor="frd"), 0))
+        out.append((dict(cfg_of(2, 2, True, 100, "Arel", "one"), ctor="frd"), 0))
+        out.append((dict(cfg_of("I3", 2, True, 100, "E0", "one"), postponed="unread"), 0))
+        out.append((dict(cfg_of(2, 2, True, 100, "E0", "one"), postponed="unread"), 0))
+        out.append((dict(cfg_of(2, -1, 2, 100, "E0", "one"), postponed="read", ctor="frd"), 0))
         out.append((cfg_of(2, 2, True, 100, "E0", "tiny"), 3))
         out.append((cfg_of("I3", 1, False, 100, "E0", "tiny"), 3))
         out.append((cfg_of(3, 2, False, 100, "E0", "tiny"), 2))
@@ -93,6 +99,10 @@ def configs(tier):
                                       (2, 3, True, "Arel")):
             out.append((cfg_of(n, loops, cache, 100, pad0, "resize"), 0))
         out.append((cfg_of("I4", 2, True, "DYN", "Arel", "small"), 0))
+        for n, loops, cache in ((2, 2, True), (3, -1, False), ("I3", 1, True), ("I4", 2, False)):
+            for extra in (dict(ctor="frd"), dict(postponed="unread"), dict(postponed="read"),
+                          dict(postponed="unread", ctor="frd")):
+                out.append((dict(cfg_of(n, loops, cache, 100, "E0", "one"), **extra), 0))
         # unmerged cross-checks: depth 4 on the reduced alphabet, depth 3 on a richer one
         out.append((cfg_of(2, 2, True, 100, "E0", "tiny"), 4))
         out.append((cfg_of("I3", 1, False, 100, "E0", "tiny"), 4))
